@@ -130,6 +130,20 @@ def run_check(prop, tier, seed, jobs=None):
         specs = []
         if not st:
             specs = mod.plan(tier, seed)
+        # environment overlays: a share of the ordinary shards of EVERY property runs under another interpreter
+        # configuration (no property may depend on time zone, locale, warning filters, hash seed or -O)
+        overlays = [None, None, {"env": {"TZ": "Asia/Tokyo"}}, None, {"preimport": ["vf.monitors.strictwarnings"]}, None,
+                    {"env": {"LC_ALL": "C", "PYTHONUTF8": "0", "PYTHONCOERCECLOCALE": "0"}}, {"hashseed": "random"}, None,
+                    {"pyargs": ["-O"]}, {"env": {"TZ": "America/Los_Angeles", "PYTHONWARNINGS": "error::UserWarning"}}, None]
+        n_over = 0
+        for i, s in enumerate(specs):
+            if not any(k in s for k in ("env", "pyargs", "preimport", "hashseed", "cwd", "stdout_encoding", "seed_fixed", "no_overlay")):
+                ov = overlays[(i + seed) % len(overlays)]
+                if ov:
+                    s.update(ov)
+                    s["overlay"] = ",".join("%s=%s" % kv for kv in sorted((k, str(v)) for k, v in ov.items()))
+                    n_over += 1
+        merged.counters["shards_under_config_overlay"] = n_over
         for i, s in enumerate(specs):
             s["_id"] = i
             s["prop"] = prop
